@@ -122,6 +122,10 @@ DELETE = [
 ]
 
 TEXT_CHECK = _canon("for val in values:\n    if '\\x00' in val:\n        raise ValueError()")
+# fix 64770f9 (found by C12's argument sweep): text that cannot be encoded as UTF-8 (a lone surrogate) is refused in the
+# same place. The Lean model's texts are `String`s, i.e. sequences of Unicode scalar values, for which the encoding
+# never fails: the extra statement is the identity on everything the model can express (ASSUMPTIONS of c10.py).
+TEXT_CHECK_ENC = _canon("for val in values:\n    if '\\x00' in val:\n        raise ValueError()\n    val.encode('utf-8')")
 
 CHECK_TYPES = _canon('''
 if isinstance(data, (Sequence, Iterable)) and not isinstance(data, str):
@@ -226,7 +230,7 @@ def extract(repo):
     setter = _prims(_fn(prop.body, "values", "Property", setter=True), SETTER, "Property.values (setter)")
     extend = _prims(_fn(prop.body, "extend_values", "Property"), EXTEND, "Property.extend_values")
     delete = _prims(_fn(prop.body, "delete_values", "Property"), DELETE, "Property.delete_values")
-    if _body_text(_fn(ptree.body, "_check_text_storable", "property.py")) != TEXT_CHECK:
+    if _body_text(_fn(ptree.body, "_check_text_storable", "property.py")) not in (TEXT_CHECK, TEXT_CHECK_ENC):
         raise ExtractError("property.py: _check_text_storable is no longer the NUL test the model transcribes")
     if _body_text(_fn(prop.body, "_check_new_value_types", "Property")) != CHECK_TYPES:
         raise ExtractError("property.py: Property._check_new_value_types no longer has the shape the model transcribes "
